@@ -230,7 +230,7 @@ for pat in range(16):
                         model="cuckoo", op="union", bs=2, nb=2, kicks=2, b_mask=pat, timeout_s=7200))
 p["units"] += [
     K("h_qf::qf_insert_vs_enc_q2r2", "quick", "QF: failed insert (Err) leaves the raw state == enc(X), len unchanged", "(2,2)", mem_class_gb=8, timeout_s=2400),
-    K("h_qf::qf_union_vs_enc_q1r2", "quick", "QF union of two arbitrary canonical states: Err iff |X u Y| > 2^q, then state == enc(X), other untouched", "(1,2)", mem_class_gb=8, timeout_s=3600),
+    K("h_qf::qf_union_vs_enc_q1r2", "thorough", "QF union of two arbitrary canonical states (both fully symbolic): Err iff |X u Y| > 2^q, then state == enc(X), other untouched", "(1,2)", mem_class_gb=8, timeout_s=3600),
     K("h_qf::qf_union_vs_enc_q1r1", "thorough", "QF union", "(1,1)", mem_class_gb=8, timeout_s=3600),
 ]
 
@@ -323,7 +323,9 @@ for cfg, tier in BLOOM_CFGS:
     ]
 p["units"] += [
     K("h_qf::qf_member_stays_q2r2", "quick", "QF: a member stays a member across insert(y) (Ok or Err(Full)); an inserted element is a member", "(2,2)", mem_class_gb=8, timeout_s=2400),
-    K("h_qf::qf_union_vs_enc_q1r2", "quick", "QF: union Ok => state = enc(X u Y) (superset of both); Err => enc(X)", "(1,2)", mem_class_gb=8, timeout_s=3600),
+    K("h_qf::qf_union_vs_enc_q1r2", "thorough", "QF: union Ok => state = enc(X u Y) (superset of both); Err => enc(X)", "(1,2)", mem_class_gb=8, timeout_s=3600),
+    M("qf_union_q2r2_s0211", "quick", "QF union at 4 slots (other = wrapping three-run cluster): Ok => state = enc(X u Y), a superset of both; Err => enc(X)", "(2,2) shape [0,2,1,1]", model="qf", op="union", bq=2, br=2, shape=[0, 2, 1, 1], timeout_s=3600),
+    M("qf_union_q2r2_s1111", "quick", "QF union at 4 slots (other = four singleton runs)", "(2,2) shape [1,1,1,1]", model="qf", op="union", bq=2, br=2, shape=[1, 1, 1, 1], timeout_s=3600),
     K("h_qf::qf_member_stays_q1r2", "thorough", "QF member stays", "(1,2)", mem_class_gb=8, timeout_s=2400),
 ]
 for (bs, nb, kicks, tier) in [(2, 2, 2, "quick"), (2, 2, 4, "quick"), (2, 4, 2, "thorough"), (2, 2, 6, "thorough")]:
@@ -340,7 +342,7 @@ p["units"].append(M("compat_hashset", "quick", "HashSet as Filter: query is cont
 p = prop("C06", engine="kani+mir2smt",
          technique="bounded model checking (Kani/CBMC) of homomorphism lemmas on arbitrary states (Bloom, CMS, HLL, QF 2 slots); symbolic execution of the MIR into SMT for the cuckoo filter",
          functions=["BloomFilter::{union,insert}", "CountMinSketch::{merge,add_n}", "HyperLogLog::{merge,add_hashed}", "QuotientFilter::union", "CuckooFilter::union"],
-         bounds={"quick": "Bloom (7,3),(1,1),(64,2); CMS (3,2),(2,3),(1,1) u8; HLL b=4; QF union (1,2) both operands arbitrary; cuckoo union 4+4 slots chains <=1 (6 of 16 occupancy patterns of other per run, rotated by VERIF_SEED; all in thorough); QF union at (2,2) for 6 of 70 shapes of other per run (all in thorough)",
+         bounds={"quick": "Bloom (7,3),(1,1),(64,2); CMS (3,2),(2,3),(1,1) u8; HLL b=4; QF union at (2,2): self any reachable state, other = 6 of 70 shapes per run (all in thorough, where Kani also decides (1,2) and (1,1) with both operands fully symbolic); cuckoo union 4+4 slots chains <=1 (6 of 16 occupancy patterns of other per run, rotated by VERIF_SEED; all in thorough); QF union at (2,2) for 6 of 70 shapes of other per run (all in thorough)",
                  "thorough": "adds Bloom (130,2), CMS wider counters, QF (1,1), cuckoo chains <=2"},
          outside=["QF union on 4 slots", "cuckoo union on more than 4 slots"],
          assumptions=COMMON_K_ASSUME + QF_ASSUME[-2:] + M_ASSUME[:5] + ["algebraic decomposition: merge = cell-wise OR / sum / max and add = merge with the singleton structure, all observers are functions of the raw state => stream-equivalence, commutativity, associativity, idempotence"])
@@ -354,8 +356,8 @@ p["units"] += [
     K("h_hll::hll_merge_max_b4", "quick", "HLL merge = register-wise max; idempotent (twice / with itself); other unchanged"),
     K("h_hll::hll_merge_algebra_b4", "quick", "HLL merge commutative and associative on three arbitrary register vectors"),
     K("h_hll::hll_add_is_merge_singleton_b4", "quick", "HLL add_hashed = merge with the singleton sketch"),
-    K("h_qf::qf_union_vs_enc_q1r2", "quick", "QF union(enc X, enc Y): Ok iff |X u Y| <= 2^q, state = enc(X u Y) (set only => commutative, associative, idempotent), other untouched", "(1,2)", mem_class_gb=8, timeout_s=3600),
-    K("h_qf::qf_union_vs_enc_q1r1", "thorough", "QF union", "(1,1)", mem_class_gb=8, timeout_s=3600),
+    K("h_qf::qf_union_vs_enc_q1r2", "thorough", "QF union(enc X, enc Y), both fully symbolic: Ok iff |X u Y| <= 2^q, state = enc(X u Y) (set only => commutative, associative, idempotent), other untouched", "(1,2)", mem_class_gb=8, timeout_s=3600),
+    K("h_qf::qf_union_vs_enc_q1r1", "thorough", "QF union at 2 slots / 4 classes, both operands fully symbolic", "(1,1)", mem_class_gb=8, timeout_s=3600),
 ]
 for pat in range(16):
     p["units"].append(M("ck_union_bs2nb2k1_b%x" % pat, "quick", "cuckoo a.union(&b), b's occupancy pattern %s: Ok => len adds, every class count adds, b unchanged" % format(pat, "04b"),
@@ -457,3 +459,8 @@ P_["units"] += [
 for pid_ in ("C14", "C12", "C01", "C06"):
     PROPS[pid_]["units"].append(M("ck_translator_validation", "quick", "24 VERIF_SEED-driven concrete cases (state, element, hash function, RNG script) through the real crate and through the encoding: results and post-states must agree",
                                   "4 slots, 2 kicks", model="cuckoo", op="validate", bs=2, nb=2, kicks=2, n=24, need_witness=["cases_agree"]))
+
+PROPS["C09"]["units"].append(M("lossy_translator_validation", "quick", "20 VERIF_SEED-driven concrete (state, key) cases through the real LossyCounter::add and through the encoding: return value, n and table must agree",
+                               "K=3", model="lossy", op="validate", n=20, need_witness=["cases_agree"]))
+PROPS["C10"]["units"].append(M("heap_translator_validation", "quick", "20 VERIF_SEED-driven concrete (state, key, sketch estimate) cases through the real CMSHeap::add and through the encoding: map and tree must agree",
+                               "K=3", model="heap", op="validate", n=20, need_witness=["cases_agree"]))
